@@ -489,6 +489,9 @@ unsafe fn fill_stat64(st: *mut libc::stat64, s: &Stat) {
     (*st).st_blocks = s.size.div_ceil(512) as i64;
     (*st).st_uid = 1000;
     (*st).st_gid = 1000;
+    (*st).st_mtime = s.mtime;
+    (*st).st_ctime = s.mtime;
+    (*st).st_atime = s.mtime;
 }
 
 unsafe fn fill_statx(st: *mut libc::statx, s: &Stat) {
@@ -502,6 +505,10 @@ unsafe fn fill_statx(st: *mut libc::statx, s: &Stat) {
     (*st).stx_blocks = s.size.div_ceil(512);
     (*st).stx_uid = 1000;
     (*st).stx_gid = 1000;
+    (*st).stx_mtime.tv_sec = s.mtime;
+    (*st).stx_ctime.tv_sec = s.mtime;
+    (*st).stx_atime.tv_sec = s.mtime;
+    (*st).stx_btime.tv_sec = s.mtime;
 }
 
 #[no_mangle]
